@@ -117,7 +117,7 @@ class AbstractManager(object):
 
     def reset(self):
         """ Resets/initializes the internal control points array. """
-        self._points[:] = [[] for _ in range(self._num_ctrlpts)]
+        self._points = [[] for _ in range(self._num_ctrlpts)]  # a new list: the points may be the points of a shape
         for k, v in self._attachment.items():
             if v > 1:
                 self._pt_data[k] = [[0.0 for _ in range(v)] for _ in range(self._num_ctrlpts)]
